@@ -244,7 +244,7 @@ func (mgr *GCMgr) gc(bkt *Bucket, startChunkID, endChunkID int, merge bool) {
 	newPos.ChunkID = gc.Dst
 	defer func() {
 		dstchunk.endGCWriting()
-		bkt.hints.trydump(gc.Dst, true)
+		bkt.hints.trydumpExclusive(gc.Dst, true)
 	}()
 
 	for gc.Src = gc.Begin; gc.Src <= gc.End; gc.Src++ {
@@ -331,7 +331,7 @@ func (mgr *GCMgr) gc(bkt *Bucket, startChunkID, endChunkID int, merge bool) {
 
 			if recsize+dstchunk.writingHead > uint32(Conf.DataFileMax) {
 				dstchunk.endGCWriting()
-				bkt.hints.trydump(gc.Dst, true)
+				bkt.hints.trydumpExclusive(gc.Dst, true)
 
 				gc.Dst++
 				newPos.ChunkID = gc.Dst
@@ -360,7 +360,7 @@ func (mgr *GCMgr) gc(bkt *Bucket, startChunkID, endChunkID int, merge bool) {
 			vhook.PointS("gc.afterRepoint", ki.StringKey)
 			rotated := bkt.hints.set(ki, &meta, newPos, recsize, "gc")
 			if rotated {
-				bkt.hints.trydump(gc.Dst, false)
+				bkt.hints.trydumpExclusive(gc.Dst, false)
 			}
 		}
 
